@@ -401,6 +401,13 @@ def _mask_palette(nrows, d, pal):
 
 
 def _run_mask(case):
+    """Declared dependency mask of an ro decision rule / a dro affinely adaptive (event-wise) decision.
+
+    ro : min sum tau  s.t. tau >= |y(z) - (a + B z)| on the box  ->  optimum = sum of |B_ij| over undeclared cells.
+    dro: every random variable z has a mirror w with support w == t_s * z in scenario s and the target is
+         a + B z + (B/4) w, i.e. the coefficient to be tracked is f_s * B with f_s = 1 + t_s/4 *per event*: the optimum
+         is max_s f_s * (sum over undeclared cells), reached only if every event has its own coefficients.
+    """
     Bd = _rs['B']
     lp = _rs['lp']
     pd = _rs['pd']
@@ -410,21 +417,30 @@ def _run_mask(case):
     is_ro = fe == 'ro'
     S = 1 if is_ro else int(fe[3:])
     tag = 'mask|%s|%s' % ('ro' if is_ro else 'dro', 'scalar' if nrows == 1 else 'vector')
+    mirrors = []
     if is_ro:
         m = _rs['ro'].Model()
         pre = m.dvar(2)
         rvars = Bd.make_rvars(m, rl)
         y = m.ldr() if nrows == 1 else m.ldr(nrows)
+        fac = [1.0]
+        part = P.declared_partition([], 1)
     else:
         m = _rs['dro'].Model(S)
         pre = m.dvar(2)
         rvars = Bd.make_rvars(m, rl)
+        mirrors = [((m.rvar() if rv.shape == () else m.rvar(rv.shape)), comps) for rv, comps in rvars]
         y = m.dvar() if nrows == 1 else m.dvar(nrows)
+        hist = [[S - 1]] if S >= 2 else []
         if S >= 2:
             y.adapt(S - 1)
             ops()
+        part = P.declared_partition(hist, S)
+        tau_s = [3.0 if (S >= 2 and s_ == S - 1) else 2.0 for s_ in range(S)]
+        fac = [1.0 + t_ / 4.0 for t_ in tau_s]
     tau = m.dvar() if nrows == 1 else m.dvar(nrows)
-    ops(4 + len(rvars))
+    ops(4 + 2 * len(rvars))
+    width = d if is_ro else 2 * d
     done = []
     for rows, cols in seq:
         try:
@@ -433,7 +449,8 @@ def _run_mask(case):
             return _viol(tag + '|legal declaration raised', 'after %s declaring rows %s x comps %s: %s %s' %
                          (done, rows, cols, Bd.errname(ex), ex), ops.n)
         done.append([rows, cols])
-        want = np.array(P.mask_of_rects([(r, c) for r, c in done], nrows, d))
+        want = np.zeros((nrows, width), dtype=int)
+        want[:, :d] = np.array(P.mask_of_rects([(r, c) for r, c in done], nrows, d))
         state = y.depend if is_ro else y.rand_adapt
         if state is None or np.asarray(state).shape != want.shape or not np.array_equal(np.asarray(state), want):
             return _viol(tag + '|dependency state differs from declared mask',
@@ -442,22 +459,31 @@ def _run_mask(case):
     mask = np.array(P.mask_of_rects([(r, c) for r, c in seq], nrows, d))
     B, a = _mask_palette(nrows, d, case['pal'])
     box = Bd.box_constraints(rvars)
-    if nrows == 1:
-        t = a[0]
-        for rv, comps in rvars:
-            t = t + (B[0, comps[0]] * rv if rv.shape == () else B[0, comps] @ rv)
-    else:
-        t = a + Bd.rand_expr(rvars, B)
+
+    def lin(pairs, coef):
+        if nrows == 1:
+            e = 0.0
+            for rv, comps in pairs:
+                e = e + (coef[0, comps[0]] * rv if rv.shape == () else coef[0, comps] @ rv)
+            return e
+        return Bd.rand_expr(pairs, coef)
+    t = (a[0] if nrows == 1 else a) + lin(rvars, B)
+    if mirrors:
+        t = t + lin(mirrors, B / 4.0)
     ops(2 * len(rvars) + 1)
     try:
         if is_ro:
             m.minmax(tau.sum() if nrows > 1 else tau, box)
-            m.st(tau >= y - t, tau >= t - y, pre == np.array([1.0, 2.0]))
         else:
             fset = m.ambiguity()
-            fset.suppset(box)
+            for s_ in range(S):
+                sup = list(box)
+                for (rv, _), (mv, _) in zip(rvars, mirrors):
+                    sup.append(mv == tau_s[s_] * rv)
+                fset.iloc[s_].suppset(*sup)
+                ops()
             m.minsup(tau.sum() if nrows > 1 else tau, fset)
-            m.st(tau >= y - t, tau >= t - y, pre == np.array([1.0, 2.0]))
+        m.st(tau >= y - t, tau >= t - y, pre == np.array([1.0, 2.0]))
         ops(5)
         m.solve(display=False)
         ops()
@@ -465,7 +491,7 @@ def _run_mask(case):
         return _viol(tag + '|legal model failed to formulate', 'mask %s: %s %s' % (mask.tolist(), Bd.errname(ex), ex), ops.n)
     if not Bd.is_optimal(m):
         return {'status': 'vacuous', 'outcome': 'mask:not optimal', 'ops': ops.n}
-    want_obj = float(np.abs(B[mask == 0]).sum())
+    want_obj = float(max(fac) * np.abs(B[mask == 0]).sum())
     got = float(m.get())
     ops()
     if not _close(got, want_obj):
@@ -474,55 +500,90 @@ def _run_mask(case):
     if not seq:
         # nothing declared: the decision is static; coefficient queries / realisation arguments do not apply
         return {'status': 'pass', 'outcome': 'mask:ok cells=0 (static)', 'ops': ops.n, 'nontrivial': False, 'validated': 1}
+    # ---- compiled program (dro): scenarios share coefficient columns iff they are in the same event
+    if not is_ro:
+        rules = m.rule_var()
+        nrand = m.sup_model.vars[-1].last
+        ccols = []
+        for s_ in range(S):
+            r = rules[s_]
+            if not isinstance(r, lp.RoAffine):
+                return _viol(tag + '|compiled rule is not affine in the random variables', type(r).__name__, ops.n)
+            ra = r.raffine.linear.tocsr()
+            cs = []
+            for i in range(nrows):
+                for j in range(d):
+                    row = ra.getrow((y.first + i) * nrand + j)
+                    if mask[i, j]:
+                        if row.nnz != 1:
+                            return _viol(tag + '|declared cell has no coefficient column', 'row %d comp %d' % (i, j), ops.n)
+                        cs.append(int(row.indices[0]))
+                    elif row.nnz:
+                        return _viol(tag + '|undeclared cell has a coefficient column', 'row %d comp %d' % (i, j), ops.n)
+                for j in range(d, nrand):
+                    if ra.getrow((y.first + i) * nrand + j).nnz:
+                        return _viol(tag + '|undeclared cell has a coefficient column', 'row %d comp %d' % (i, j), ops.n)
+            ccols.append(tuple(cs))
+        for s_ in range(S):
+            for t_ in range(S):
+                same = P.same_block(part, s_, t_)
+                if same and ccols[s_] != ccols[t_]:
+                    return _viol(tag + '|same event, different coefficient columns', '%s' % (ccols,), ops.n)
+                if not same and set(ccols[s_]) & set(ccols[t_]):
+                    return _viol(tag + '|different events share coefficient columns', '%s' % (ccols,), ops.n)
     # ---- coefficient queries: NaN exactly off-mask
     yshape = () if nrows == 1 else (nrows,)
-    for rv, comps in rvars:
+    for rv, comps in rvars + mirrors:
+        is_mirror = any(rv is mv for mv, _ in mirrors)
         try:
             coef = y.get(rv)
             ops()
         except Exception as ex:  # noqa
             return _viol(tag + '|coefficient query raised', 'mask %s: y.get(rv) %s %s' % (mask.tolist(), Bd.errname(ex), ex), ops.n)
-        per_s = list(coef) if isinstance(coef, pd.Series) else [coef]
-        for cf in per_s:
+        per_s = list(coef) if isinstance(coef, pd.Series) else [coef] * S
+        if len(per_s) != S:
+            return _viol(tag + '|coefficient query shape', 'series of length %d for %d scenarios' % (len(per_s), S), ops.n)
+        for s_, cf in enumerate(per_s):
             cf = np.asarray(cf, dtype=float)
             if cf.shape != yshape + tuple(rv.shape):
                 return _viol(tag + '|coefficient query shape', 'got %s expected %s' % (cf.shape, yshape + tuple(rv.shape)), ops.n)
             cf2 = cf.reshape(nrows, len(comps))
-            mm = mask[:, comps]
+            mm = mask[:, comps] if not is_mirror else np.zeros((nrows, len(comps)), dtype=int)
             if not np.array_equal(np.isnan(cf2), mm == 0):
                 return _viol(tag + '|NaN pattern differs from declared mask',
-                             'mask %s comps %s: coefficients %s' % (mask.tolist(), comps, cf2.tolist()), ops.n)
-            if not np.allclose(cf2[mm == 1], B[:, comps][mm == 1], rtol=0, atol=1e-6 * 33):
-                return _viol(tag + '|coefficient value', 'mask %s comps %s: coefficients %s expected %s' %
-                             (mask.tolist(), comps, cf2.tolist(), B[:, comps].tolist()), ops.n)
+                             'mask %s comps %s%s: coefficients %s' % (mask.tolist(), comps, ' (mirror)' if is_mirror else '',
+                                                                      cf2.tolist()), ops.n)
+            if not np.allclose(cf2[mm == 1], fac[s_] * B[:, comps][mm == 1], rtol=0, atol=1e-6 * 60):
+                return _viol(tag + '|coefficient value', 'mask %s comps %s scenario %d: coefficients %s expected %s' %
+                             (mask.tolist(), comps, s_, cf2.tolist(), (fac[s_] * B[:, comps]).tolist()), ops.n)
     # ---- the returned rule ignores components it was not declared to depend on
     v1 = np.array([0.5, -0.25, 0.75])[:d]
+
+    def per_scen(res):
+        items = list(res) if isinstance(res, pd.Series) else [res] * S
+        return [np.asarray(b, dtype=float).reshape(nrows) for b in items]
     try:
-        base = y(*Bd.assign_all(rvars, v1))
+        base_s = per_scen(y(*Bd.assign_all(rvars, v1)))
         ops()
-        base_s = [np.asarray(b, dtype=float).reshape(nrows) for b in (list(base) if isinstance(base, pd.Series) else [base])]
         sens = 0
         for i in range(nrows):
             v2 = v1.copy()
             v2[mask[i] == 0] += np.array([1.0, -2.0, 0.5])[:d][mask[i] == 0]
-            other = y(*Bd.assign_all(rvars, v2))
+            other_s = per_scen(y(*Bd.assign_all(rvars, v2)))
             ops()
-            other_s = [np.asarray(b, dtype=float).reshape(nrows) for b in
-                       (list(other) if isinstance(other, pd.Series) else [other])]
-            for b0, b1 in zip(base_s, other_s):
+            for s_, (b0, b1) in enumerate(zip(base_s, other_s)):
                 if abs(b0[i] - b1[i]) > 1e-7:
                     return _viol(tag + '|rule value changes with an undeclared component',
                                  'mask %s row %d: %r at %s vs %r at %s' % (mask.tolist(), i, b0[i], v1.tolist(), b1[i], v2.tolist()),
                                  ops.n)
-                want_i = a[i] + float((B[i] * mask[i]) @ v1)
-                if abs(b0[i] - want_i) > 1e-6 * 40:
+                want_i = a[i] + fac[s_] * float((B[i] * mask[i]) @ v1)
+                if abs(b0[i] - want_i) > 1e-6 * 60:
                     return _viol(tag + '|rule value differs from closed form',
-                                 'mask %s row %d: %r expected %r' % (mask.tolist(), i, b0[i], want_i), ops.n)
+                                 'mask %s row %d scenario %d: %r expected %r' % (mask.tolist(), i, s_, b0[i], want_i), ops.n)
             if mask[i].any():
                 v3 = v1.copy()
                 v3[mask[i] == 1] += 1.0
-                o3 = y(*Bd.assign_all(rvars, v3))
-                o3_s = [np.asarray(b, dtype=float).reshape(nrows) for b in (list(o3) if isinstance(o3, pd.Series) else [o3])]
+                o3_s = per_scen(y(*Bd.assign_all(rvars, v3)))
                 if abs(o3_s[0][i] - base_s[0][i]) > 1e-3:
                     sens += 1
     except Exception as ex:  # noqa
